@@ -9,8 +9,8 @@ RULE = ("bridge_peg: L1 histories of lock / burn / claim / pause / blacklist / f
         "fee receiver unset and set (also set to the sender, to module accounts), ceth burned with the receiver unset, ceth locked with the receiver "
         "unset (duplicate-denomination panic), fees below / at / above the floor, amounts above the balance, invalid denominations, chain ids 0 and "
         "negative, receivers in five spellings (EIP-55, lower, upper, un-prefixed, 0X) and non-addresses, blacklists with several spellings; "
-        "4 repetitions per history. Judged on the implementation's observations: Spec.C07.pegStep (balances, supply, exactly one event), gateOK "
-        "(pause, address-level blacklist, native/pegged), supplyOK (supply = genesis + credits - locks - burns per denomination after every message). "
+        "claim symbols differing in case only / prefixes of one another / starting with the pegged prefix (usdt USDT Usdt usd usdtx cusdt …), each minted denomination then locked and burned by its holder; 4 repetitions per history. Judged on the implementation's observations: Spec.C07.pegStep (balances, supply, exactly one event), gateOK "
+        "(pause, address-level blacklist, native/pegged where pegged = in the stored list OR minted by a lock credit earlier in the history; burn of a minted token never refused as native), peggyRegOK (after a SUCCESS claim the stored list = old list + exactly the credited denomination), supplyOK (supply = genesis + credits - locks - burns per denomination after every message). "
         "non-trivial = distinct accepted message, or a gate chk with the bridge paused or the receiver listed")
 TRUSTED_BASE = [
     "Lean 4.33.0 kernel; axioms propext, Classical.choice, Quot.sound (audited per theorem on every run)",
